@@ -1,12 +1,15 @@
 /-
 Cluster `obs`: `add_or_remove_notifiers` / `_AddOrRemoveNotifier`
-(traits/observation/_observe.py) and `apply_observers` (observe.py:84-113),
+(traits/observation/_observe.py) and `apply_observers` (observe.py:84-116),
 `HasTraits.observe` (has_traits.py:2267-2344).
 
-The hooks are threaded through and RETURNED EVEN WHEN THE CALL RAISES: a failing
-registration leaves whatever its undo logs did not roll back (each recursive
-`_AddOrRemoveNotifier` has its own `_processed` list and clears it on success,
-_observe.py:104-105, so completed sibling subtrees stay — finding F4).
+ONE undo log per outermost call (fix 4ea62e3): the walk started by the outermost
+`add_or_remove_notifiers` owns `_processed`; nested walks (children, extra graphs)
+record into the same list and do not roll back themselves (_observe.py:86-91,
+111-115); on an exception the owner undoes everything recorded, most recent first
+(`undo_processed`, _observe.py:59-69).  `apply_observers` shares one log across all
+graphs of an expression.  The hooks are threaded through and returned even when
+the call raises (then they are what the roll-back produced).
 -/
 import TraitsVerif.Model.Hooks
 namespace TraitsVerif.Model.Obs
@@ -16,6 +19,9 @@ open TraitsVerif
 structure Res where
   H : Hooks
   err : Option Exc
+
+/-- hooks, undo log (`_processed`, most recent first), exception -/
+abbrev Tr := Hooks × List Item × Option Exc
 
 /-- `_add_or_remove_notifiers` (_observe.py:164-181): nothing when the node does
 not notify (then `iter_observables` is not even called). -/
@@ -35,18 +41,14 @@ def maintStep (h : Heap) (k : HKey) (rm : Bool) (ob : Observer) (cs : List Graph
   | .error e => (H, done, some e)
   | .ok os => applyOwn rm (os.flatMap (fun o => cs.map (fun c => (o, NKey.maint ob.mkind c k)))) H done
 
-/-- `_add_or_remove_extra_graphs` (_observe.py:107-119): the extra graph is
-`ObserverGraph(node=TraitAddedObserver(…), children=[graph])`; walking it with
-its own `_AddOrRemoveNotifier` adds/removes one maintainer for `graph` on the
-`trait_added` trait (its node does not notify and yields no objects). -/
-def extraStep (h : Heap) (k : HKey) (rm : Bool) (g : Graph) (x : W) (H : Hooks) : Res :=
+/-- `_add_or_remove_extra_graphs` (_observe.py:127-140): the extra graph is
+`ObserverGraph(node=TraitAddedObserver(…), children=[graph])`; walking it (into the
+shared log) adds/removes one maintainer for `graph` on the `trait_added` trait (its
+node does not notify and yields no objects). -/
+def extraStepW (h : Heap) (k : HKey) (rm : Bool) (g : Graph) (x : W) (H : Hooks) (log : List Item) : Tr :=
   match extraObservables h g.ob x with
-  | .error e => ⟨H, some e⟩
-  | .ok os =>
-    let r := applyOwn rm (os.map (fun o => (o, NKey.maint .added g k))) H []
-    match r.2.2 with
-    | some e => ⟨undo rm r.2.1 r.1, some e⟩
-    | none => ⟨r.1, none⟩
+  | .error e => (H, log, some e)
+  | .ok os => applyOwn rm (os.map (fun o => (o, NKey.maint .added g k))) H log
 
 /-- `for y in ys: f(y)` threading the hooks; the first exception propagates. -/
 def foldRes (f : W → Hooks → Res) : List W → Hooks → Res
@@ -57,72 +59,89 @@ def foldRes (f : W → Hooks → Res) : List W → Hooks → Res
     | some e => ⟨r.H, some e⟩
     | none => foldRes f ys r.H
 
+/-- the same, threading hooks and undo log -/
+def foldW (f : W → Hooks → List Item → Tr) : List W → Hooks → List Item → Tr
+  | [], H, log => (H, log, none)
+  | y :: ys, H, log =>
+    let r := f y H log
+    match r.2.2 with
+    | some _ => r
+    | none => foldW f ys r.1 r.2.1
+
 mutual
-/-- `_AddOrRemoveNotifier.__call__` (_observe.py:75-105).  `extra = false` is the
-walk started by `TraitAddedObserver.observer_change_handler`, whose root
+/-- The steps of `_AddOrRemoveNotifier.__call__` (_observe.py:93-125) WITHOUT the
+roll-back, recording into the log that is passed in.  `extra = false` is the walk
+started by `TraitAddedObserver.observer_change_handler`, whose root
 `_RestrictedNamedTraitObserver` contributes no extra graph. -/
-def addRemove (h : Heap) (k : HKey) (rm : Bool) (extra : Bool) : Graph → W → Hooks → Res
-  | .node ob cs, x, H =>
+def walk (h : Heap) (k : HKey) (rm : Bool) (extra : Bool) : Graph → W → Hooks → List Item → Tr
+  | .node ob cs, x, H, log =>
     if rm then
       -- steps[::-1]: extra graphs, children, maintainers, notifiers
-      let r1 := if extra then extraStep h k rm (.node ob cs) x H else ⟨H, none⟩
-      match r1.err with
-      | some e => ⟨r1.H, some e⟩
+      let r1 : Tr := if extra then extraStepW h k rm (.node ob cs) x H log else (H, log, none)
+      match r1.2.2 with
+      | some _ => r1
       | none =>
-        let r2 := addRemoveCs h k rm ob x cs r1.H
-        match r2.err with
-        | some e => ⟨r2.H, some e⟩
+        let r2 := walkCs h k rm ob x cs r1.1 r1.2.1
+        match r2.2.2 with
+        | some _ => r2
         | none =>
-          let s3 := maintStep h k rm ob cs x r2.H []
+          let s3 := maintStep h k rm ob cs x r2.1 r2.2.1
           match s3.2.2 with
-          | some e => ⟨undo rm s3.2.1 s3.1, some e⟩
-          | none =>
-            let s4 := notifStep h k rm ob x s3.1 s3.2.1
-            match s4.2.2 with
-            | some e => ⟨undo rm s4.2.1 s4.1, some e⟩
-            | none => ⟨s4.1, none⟩
+          | some _ => s3
+          | none => notifStep h k rm ob x s3.1 s3.2.1
     else
-      let s1 := notifStep h k rm ob x H []
+      let s1 := notifStep h k rm ob x H log
       match s1.2.2 with
-      | some e => ⟨undo rm s1.2.1 s1.1, some e⟩
+      | some _ => s1
       | none =>
         let s2 := maintStep h k rm ob cs x s1.1 s1.2.1
         match s2.2.2 with
-        | some e => ⟨undo rm s2.2.1 s2.1, some e⟩
+        | some _ => s2
         | none =>
-          let r3 := addRemoveCs h k rm ob x cs s2.1
-          match r3.err with
-          | some e => ⟨undo rm s2.2.1 r3.H, some e⟩
-          | none =>
-            let r4 := if extra then extraStep h k rm (.node ob cs) x r3.H else ⟨r3.H, none⟩
-            match r4.err with
-            | some e => ⟨undo rm s2.2.1 r4.H, some e⟩
-            | none => ⟨r4.H, none⟩
-/-- `_add_or_remove_children_notifiers` (_observe.py:121-139):
+          let r3 := walkCs h k rm ob x cs s2.1 s2.2.1
+          match r3.2.2 with
+          | some _ => r3
+          | none => if extra then extraStepW h k rm (.node ob cs) x r3.1 r3.2.1 else r3
+/-- `_add_or_remove_children_notifiers` (_observe.py:142-156):
 `for child_graph in children: for next_object in node.iter_objects(object): …`
 (`iter_objects` is re-evaluated for every child graph; never called when there
 is no child). -/
-def addRemoveCs (h : Heap) (k : HKey) (rm : Bool) (ob : Observer) (x : W) : List Graph → Hooks → Res
-  | [], H => ⟨H, none⟩
-  | c :: cs, H =>
+def walkCs (h : Heap) (k : HKey) (rm : Bool) (ob : Observer) (x : W) : List Graph → Hooks → List Item → Tr
+  | [], H, log => (H, log, none)
+  | c :: cs, H, log =>
     match objects h ob x with
-    | .error e => ⟨H, some e⟩
+    | .error e => (H, log, some e)
     | .ok ys =>
-      let r := foldRes (addRemove h k rm true c) ys H
-      match r.err with
-      | some e => ⟨r.H, some e⟩
-      | none => addRemoveCs h k rm ob x cs r.H
+      let r := foldW (walk h k rm true c) ys H log
+      match r.2.2 with
+      | some _ => r
+      | none => walkCs h k rm ob x cs r.1 r.2.1
 end
 
-/-- `apply_observers` (observe.py:106-113): one `add_or_remove_notifiers` per
-compiled graph, target = the object itself; no rollback across graphs. -/
-def applyObservers (h : Heap) (k : HKey) (rm : Bool) (x : W) : List Graph → Hooks → Res
-  | [], H => ⟨H, none⟩
-  | g :: gs, H =>
-    let r := addRemove h k rm true g x H
-    match r.err with
-    | some e => ⟨r.H, some e⟩
-    | none => applyObservers h k rm x gs r.H
+/-- The owner of the log: on an exception `undo_processed`, then re-raise
+(_observe.py:117-125; observe.py:112-116). -/
+def finish (rm : Bool) (r : Tr) : Res :=
+  match r.2.2 with
+  | some e => ⟨undo rm r.2.1 r.1, some e⟩
+  | none => ⟨r.1, none⟩
+
+/-- An outermost `add_or_remove_notifiers(…)` (no `_processed` passed): as called by
+the maintainers' change handlers. -/
+def addRemove (h : Heap) (k : HKey) (rm : Bool) (extra : Bool) (g : Graph) (x : W) (H : Hooks) : Res :=
+  finish rm (walk h k rm extra g x H [])
+
+/-- the loop of `apply_observers` over the compiled graphs, one shared log -/
+def applyObserversW (h : Heap) (k : HKey) (rm : Bool) (x : W) : List Graph → Hooks → List Item → Tr
+  | [], H, log => (H, log, none)
+  | g :: gs, H, log =>
+    let r := walk h k rm true g x H log
+    match r.2.2 with
+    | some _ => r
+    | none => applyObserversW h k rm x gs r.1 r.2.1
+
+/-- `apply_observers` (observe.py:100-116), target = the object itself. -/
+def applyObservers (h : Heap) (k : HKey) (rm : Bool) (x : W) (gs : List Graph) (H : Hooks) : Res :=
+  finish rm (applyObserversW h k rm x gs H [])
 
 /-- `HasTraits.observe(handler, expression, remove=…)`: compile, then apply. -/
 def observe (h : Heap) (handler : Nat) (root : Id) (rm : Bool) (e : Expr) (H : Hooks) : Res :=
